@@ -424,14 +424,22 @@ def check_error_mapping(ctx, consts):
 def check(ctx):
     mod = ctx.mod(AMP)
     consts = module_consts(mod)
-    check_take_then_fire(ctx, "_answerReceived", "ANSWER", "callback")
-    check_take_then_fire(ctx, "_errorReceived", "ERROR", "errback")
-    check_dispatch(ctx)
-    check_fail_all(ctx)
-    check_send(ctx)
-    check_who_may_write(ctx, mod)
-    check_drain(ctx)
-    check_error_mapping(ctx, consts)
+    with ctx.section("_answerReceived"):
+        check_take_then_fire(ctx, "_answerReceived", "ANSWER", "callback")
+    with ctx.section("_errorReceived"):
+        check_take_then_fire(ctx, "_errorReceived", "ERROR", "errback")
+    with ctx.section("ampBoxReceived dispatch"):
+        check_dispatch(ctx)
+    with ctx.section("failAllOutgoing"):
+        check_fail_all(ctx)
+    with ctx.section("_sendBoxCommand"):
+        check_send(ctx)
+    with ctx.section("who-may-write"):
+        check_who_may_write(ctx, mod)
+    with ctx.section("connection-loss drain"):
+        check_drain(ctx)
+    with ctx.section("error mapping"):
+        check_error_mapping(ctx, consts)
 
 
 MUTANTS = [
